@@ -4,7 +4,7 @@ import z3
 
 from . import vals as V
 from .vals import Val
-from .engine import (Z, PyTuple, RefV, ListBox, SeqBox, AbsBox, ObjBox, FuncV, ClassV, BuiltinV,
+from .engine import (Z, PyTuple, RefV, ListBox, SeqBox, AbsBox, ObjBox, LambdaV, FuncV, ClassV, BuiltinV,
                      ModuleV, SpecFuncV, Exc, Unsupported, State, Obligation, BUILTIN_EXC_PARENT,
                      is_exc, assigned_names, MUTATING_METHODS)
 
@@ -232,6 +232,8 @@ class Executor:
                 if ci is not None and ("__len__" in ci.methods or "__bool__" in ci.methods):
                     raise Unsupported("truthiness of %s via __len__/__bool__" % box.cls, node)
                 return T(True)
+            if isinstance(box, AbsBox) and box.length is not None:
+                return box.length > 0
             raise Unsupported("truthiness of opaque collection", node)
         if isinstance(v, (FuncV, ClassV, BuiltinV, ModuleV)):
             return T(True)
@@ -392,6 +394,9 @@ class Executor:
             raise Unsupported("Ellipsis", e)
         raise Unsupported("constant %r" % (v,), e)
 
+    def ev_Lambda(self, e, st):
+        return [(st, LambdaV(e, dict(st.env), self.cur_fi))]
+
     def ev_Name(self, e, st):
         v = self.lookup(e.id, st, e)
         if isinstance(v, tuple) and v and v[0] == "global_expr":
@@ -493,7 +498,7 @@ class Executor:
             elif isinstance(b, ObjBox):
                 sig.append((k, "O", tuple(sorted((n, (v.t.get_id() if isinstance(v, Z) else id(v))) for n, v in b.fields.items()))))
             else:
-                sig.append((k, "A", id(b)))
+                sig.append((k, "A", b.kind, b.length.get_id() if b.length is not None else None))
         return tuple(sig)
 
     def boolop_merged(self, e, st, is_and):
@@ -960,6 +965,16 @@ class Executor:
             head = src.split("[")[0].split(".")[-1]
             if head in ("List", "Deque") and src.endswith("[str]"):
                 return s.alloc(SeqBox(z3.Const(name, V.SeqStr), "str", "deque" if head == "Deque" else "list"))
+            if head in ("List", "Deque", "Tuple", "deque", "list") and not (head == "Tuple" and not src.endswith(", ...]")):
+                n = z3.Int(name + "_len")
+                s.assume(n >= 0)
+                elem = None
+                if isinstance(ann, ast.Subscript):
+                    elem = ann.slice.elts[0] if (head == "Tuple" and isinstance(ann.slice, ast.Tuple)) else ann.slice
+                return s.alloc(AbsBox({"Deque": "deque", "deque": "deque", "Tuple": "tuple"}.get(head, "list"), n, elem))
+            if head == "Tuple" and isinstance(ann, ast.Subscript):
+                elts = ann.slice.elts if isinstance(ann.slice, ast.Tuple) else [ann.slice]
+                return PyTuple([self.fresh_of_annotation(x, "%s_%d" % (name, i), s, node) for i, x in enumerate(elts)])
             if isinstance(ann, ast.Name):
                 ci = self.P.find_class(ann.id)
                 if ci is not None and not ci.is_enum:
@@ -1271,13 +1286,19 @@ class Executor:
                     break
             if init is None:
                 return [(s, obj)]
+            cs = self.registry.get(init.qualname)
+            if cs:
+                self.check_call_pre(cs[0], init, [obj] + list(args), kwargs, s, node)
             out = []
-            for (s2, r) in self.call_function(init, [obj] + list(args), kwargs, s, node):
+            for (s2, r) in self.inline_call(init, [obj] + list(args), kwargs, s, node):
                 out.append((s2, r if is_exc(r) else obj))
             return out
         raise Unsupported("constructor %s" % name, node)
 
     def apply_contract(self, c, fi, args, kwargs, s, node):
+        raise Unsupported("contract application (engine extension not loaded)", node)
+
+    def check_call_pre(self, c, fi, args, kwargs, s, node):
         raise Unsupported("contract application (engine extension not loaded)", node)
 
     def call_builtin(self, fv, args, kwargs, s, node):
@@ -1541,6 +1562,14 @@ class Executor:
             elif isinstance(b0, SeqBox):
                 if not all(isinstance(b, SeqBox) and b.term.get_id() == b0.term.get_id() for b in boxes):
                     return outcomes
+            elif isinstance(b0, AbsBox):
+                if not all(isinstance(b, AbsBox) and b.kind == b0.kind and (b.length is None) == (b0.length is None) for b in boxes):
+                    return outcomes
+                if b0.length is not None and not all(b.length.get_id() == b0.length.get_id() for b in boxes):
+                    t = boxes[-1].length
+                    for sel, b in zip(reversed(sels[:-1]), reversed(boxes[:-1])):
+                        t = z3.If(sel, b.length, t)
+                    merged.store[ref].length = t
             else:
                 if not all(b is b0 for b in boxes):
                     return outcomes
